@@ -1,0 +1,34 @@
+//go:build verif
+
+package string
+
+// Contracts for the goverif VC generator (/verif). Comment-only file: it adds no code.
+
+// ---- C15: the array writer and readers of the str data type --------------------------------------------------
+// One element is written as exactly one Writeln of exactly the element's bytes to this writer's
+// stream. The readers hand each scanned line, trimmed of surrounding white space (the str type's
+// documented behaviour) and otherwise as it is, to the callback with the str data type; the scanner is
+// bufio's line scanner in its default configuration (no Buffer / Split call changes its limits).
+
+//@ func (*arrayWriter).Write [C15]
+//@   check none
+//@   requires w != nil
+//@   ensures called("(lang/stdio.Io).Writeln")
+//@   at call (lang/stdio.Io).Writeln#* assert recv == w.writer && arg0 == b
+
+//@ func (*arrayWriter).WriteString [C15]
+//@   check none
+//@   requires w != nil
+//@   ensures called("(lang/stdio.Io).Writeln")
+//@   at call (lang/stdio.Io).Writeln#* assert recv == w.writer && bytesof(s, arg0)
+
+//@ func readArrayWithType [C15]
+//@   check none
+//@   ensures !called("(*bufio.Scanner).Buffer") && !called("(*bufio.Scanner).Split")
+//@   at call strings.TrimSpace#* assert arg0 == ret("(*bufio.Scanner).Text#1")
+//@   at call dynamic:callback#* assert typeis(arg0, string) && unbox(arg0, string) == ret("strings.TrimSpace#1") && arg1 == types.String
+//@ func readArray [C15]
+//@   check none
+//@   ensures !called("(*bufio.Scanner).Buffer") && !called("(*bufio.Scanner).Split")
+//@   at call bytes.TrimSpace#* assert arg0 == ret("(*bufio.Scanner).Bytes#1")
+//@   at call dynamic:callback#* assert arg0 == ret("bytes.TrimSpace#1")
